@@ -1,6 +1,6 @@
 (* Extract_vi.v -- extraction of the vi motion / operator models to OCaml (ExtrOcamlBasic only). *)
 From Coq Require Import List NArith ZArith Extraction ExtrOcamlBasic.
-From NV Require Import Bytes UcDefs MotDefs RegDefs ViDefs.
+From NV Require Import Bytes UcDefs MotDefs RegDefs ViDefs ViInsDefs.
 Definition all_types : nat * N * Z := (0%nat, 0%N, 0%Z).
 Extraction "vi_model.ml" all_types buf_of_bytes run_prog init_vst step run ren_pos ren_off positions regs0 reg_put reg_get
-  chop flat exec_prog c_x c_X c_D c_C c_s c_S c_Y c_tilde.
+  chop flat exec_prog exec_prog_x c_x c_X c_D c_C c_s c_S c_Y c_tilde.
